@@ -49,6 +49,8 @@ pub struct Func {
     pub impl_generics: Vec<String>,
     /// from a trait default body (instantiated per type)
     pub from_default: bool,
+    /// name prefix of the emitted inherent function ("cf_" for ComplexField, "rf_" for RealField; R2)
+    pub prefix: String,
 }
 
 impl Func {
@@ -146,6 +148,7 @@ impl Db {
                     mname: format!("m_{ty}_{name}"),
                     impl_generics: gens,
                     from_default: true,
+                    prefix: String::new(),
                 });
             }
         }
@@ -258,11 +261,16 @@ impl Db {
                         format!("_{s}{r}")
                     }
                     Some(t) if INHERENT_TRAITS.contains(&t.as_str()) || t == "Clone" => "".into(),
+                    Some(t) if t == "ComplexField" || t == "RealField" => "".into(),
                     Some(t) => format!("_{}", t),
                     None => "".into(),
                 };
-                let has_self = f.sig.inputs.iter().any(|a| matches!(a, FnArg::Receiver(_)));
-                let _ = has_self;
+                let prefix = match trait_.as_deref() {
+                    Some("ComplexField") => "cf_",
+                    Some("RealField") => "rf_",
+                    _ => "",
+                }
+                .to_string();
                 self.funcs.push(Func {
                     ty: ty.clone(),
                     trait_: trait_.clone(),
@@ -272,9 +280,10 @@ impl Db {
                     item: f.clone(),
                     line: f.span().start().line,
                     end_line: f.span().end().line,
-                    mname: format!("m_{ty}_{name}{suffix}"),
+                    mname: format!("m_{ty}_{prefix}{name}{suffix}"),
                     impl_generics: impl_generics.clone(),
                     from_default: false,
+                    prefix,
                 });
             }
         }
@@ -290,6 +299,11 @@ impl Db {
                     f.ty == ty && f.name == name && !f.self_ref && f.trait_.as_deref().map(|t| INHERENT_TRAITS.contains(&t)).unwrap_or(false)
                 })
             })
+    }
+
+    /// nalgebra field-trait method (by-value receiver: found before the auto-ref'd DualNum / Signed methods)
+    pub fn find_field_method(&self, ty: &str, name: &str) -> Option<&Func> {
+        self.funcs.iter().find(|f| f.ty == ty && f.name == name && !f.prefix.is_empty())
     }
 
     pub fn find_op(&self, ty: &str, tr: &str, self_ref: bool, rhs: &Rhs) -> Option<&Func> {
